@@ -45,7 +45,7 @@ struct Gen {
   }
   void read_op(double p_int = 0.25, int maxrep = 4) {
     if (g.chance(p_int)) {
-      Rec &r = op(g.chance(0.1) ? "read_filter" : "read_int"); int word = g.chance(0.5) ? 2 : 1; if (g.chance(0.04)) word = g.chance(0.5) ? 0 : -1;
+      Rec &r = op(g.chance(0.2) ? "read_filter" : "read_int"); int word = g.chance(0.5) ? 2 : 1; if (g.chance(0.04)) word = g.chance(0.5) ? 0 : -1;
       r.set("word", word).set("sgned", (int64_t)g.below(2)).set("be", (int64_t)g.below(2));
       double u = g.unit(); int nch = sr.ps.links[0]->r.ch; int frame = std::max(1, word) * nch;
       int len = u < 0.15 ? (int)g.below((uint64_t)frame) : u < 0.25 ? frame : u < 0.33 ? frame + 1 : u < 0.6 ? (int)g.range(1, 600) : (int)g.range(600, 8192);
@@ -56,8 +56,8 @@ struct Gen {
     }
   }
   void linear_read(bool mixed_int) {
-    Rec &r = op(mixed_int && g.chance(0.3) ? "read_int" : "read_float");
-    if (r.s("kind") == "read_int") r.set("word", g.chance(0.5) ? 2 : 1).set("sgned", (int64_t)g.below(2)).set("be", (int64_t)g.below(2));
+    Rec &r = op(mixed_int && g.chance(0.3) ? (g.chance(0.35) ? "read_filter" : "read_int") : "read_float");
+    if (r.s("kind") != "read_float") r.set("word", g.chance(0.5) ? 2 : 1).set("sgned", (int64_t)g.below(2)).set("be", (int64_t)g.below(2));
     if (g.chance(0.5)) r.set("len", -1).setu("lenseed", g.next() % 100000); else r.set("len", g.chance(0.5) ? 4096 : (int64_t)g.range(1, 8192));
     r.set("rep", 0);
   }
